@@ -1,4 +1,4 @@
-CONSTANTS MaxArity = 3 Len3 = 2 CallArity = 1
+CONSTANTS MaxArity = 3 Len3 = 2 UnkLen2 = 2 UnkLen3 = 1 CallArity = 1
 INIT Init
 NEXT Next
 INVARIANT Emit
